@@ -241,7 +241,12 @@ func runCheck(id, only string, noEv bool) int {
 			if e.loops[fn.String()] == nil {
 				e.loops[fn.String()] = map[int]*LoopAnn{}
 			}
-			e.loops[fn.String()][ord] = a
+			a.For = argVal(d, "for")
+			if a.For != "" {
+				e.loopsFor[fn.String()+"|"+fmt.Sprint(ord)+"|"+a.For] = a
+			} else {
+				e.loops[fn.String()][ord] = a
+			}
 		case "opaque":
 			fn := resolveFn(all, pp, d.Fn)
 			if fn == nil {
@@ -281,7 +286,7 @@ func runCheck(id, only string, noEv bool) int {
 				} else if !strings.Contains(full, "/") && !strings.Contains(full, ".") { // a function of this package
 					full = pp + "." + full
 				}
-				e.ifaceContracts[full] = &Contract{D: d, SpecPkg: ssaPkgOf[d.PkgDir]}
+				e.ifaceAll[full] = append(e.ifaceAll[full], &Contract{D: d, SpecPkg: ssaPkgOf[d.PkgDir]})
 				continue
 			}
 			fn := resolveFn(all, pp, d.Fn)
